@@ -5,10 +5,11 @@ import (
 	"encoding/base64"
 	"fmt"
 	"io"
-	"net/http"
 	"math/rand/v2"
+	"net/http"
 	"sort"
 	"strconv"
+	"strings"
 	"time"
 
 	frugal "github.com/Workiva/frugal/lib/go"
@@ -20,53 +21,53 @@ import (
 // transport; an adversarial peer decides per request what comes back.
 
 type muxDelivery struct {
-	kind        string
-	handedStep  int
-	deliveredAt time.Duration // simulated time the whole frame became readable; -1 = not yet
+	kind          string
+	handedStep    int
+	deliveredAt   time.Duration // simulated time the whole frame became readable; -1 = not yet
 	deliveredStep int
 }
 
 type muxCall struct {
-	id       int
-	caller   int
-	opid     string
-	tag      string
-	timeout  time.Duration
-	oneway   bool
-	invokeAt time.Duration
-	invokeStep int
-	returned bool
-	returnAt time.Duration
-	returnStep int
-	err      error
-	resp     []byte
-	sendFault string // "", "write-err", "flush-err", "write-block", "flush-block"
-	n503     int
-	plan     string
-	seen     bool
-	deliveries []*muxDelivery
+	id            int
+	caller        int
+	opid          string
+	tag           string
+	timeout       time.Duration
+	oneway        bool
+	invokeAt      time.Duration
+	invokeStep    int
+	returned      bool
+	returnAt      time.Duration
+	returnStep    int
+	err           error
+	resp          []byte
+	sendFault     string // "", "write-err", "flush-err", "write-block", "flush-block"
+	n503          int
+	plan          string
+	seen          bool
+	deliveries    []*muxDelivery
 	deliveries503 []*muxDelivery
 }
 
 type muxState struct {
-	kind   string // adapter | nats
-	send   func(d *muxDelivery, opid string, frame []byte) // hand a response frame to the wire now
-	send503 func(d *muxDelivery, subjectSuffix string)
-	byDseq map[string]*muxDelivery
-	pending503 map[string][]*muxDelivery
-	rc     *RunCtx
-	s      *simrt.Sim
-	calls  []*muxCall
-	byTag  map[string]*muxCall
-	bySeq  map[int]*muxDelivery
-	prof   muxProfile
-	evN    int
+	kind        string                                          // adapter | nats
+	send        func(d *muxDelivery, opid string, frame []byte) // hand a response frame to the wire now
+	send503     func(d *muxDelivery, subjectSuffix string)
+	byDseq      map[string]*muxDelivery
+	pending503  map[string][]*muxDelivery
+	rc          *RunCtx
+	s           *simrt.Sim
+	calls       []*muxCall
+	byTag       map[string]*muxCall
+	bySeq       map[int]*muxDelivery
+	prof        muxProfile
+	evN         int
 	extraFrames int
 }
 
 type muxProfile struct {
 	// weights of peer behaviours: once, dup, never, late, unknown, stale
-	w [6]int
+	w            [6]int
 	sendFaultPct int
 }
 
@@ -124,7 +125,9 @@ func muxHarness(rc *RunCtx) {
 	var tr frugal.FTransport
 	var blockedWrites int
 	var lastWritten *muxCall
-	const inbox = "_INBOX.cli"
+	natsSmallPayload := false
+	// inbox names with and without digits (the reply subject is <inbox>.<opid>)
+	inbox := []string{"_INBOX.cli", "_INBOX.a2Zk01", "client1"}[tp.Intn("cfg", 3)]
 	if kind == "adapter" {
 		st = NewSimStream(rc, "c0")
 		tr = frugal.NewAdapterTransport(st)
@@ -182,6 +185,11 @@ func muxHarness(rc *RunCtx) {
 		tr = frugal.NewFHTTPTransportBuilder(hc, "http://sim/frugal").Build()
 	} else {
 		b = NewSimBroker(rc)
+		if tp.Intn("cfg", 4) == 0 {
+			// a server whose max_payload is below frugal's own 1 MiB limit: publishing a larger request fails after it was registered
+			b.MaxPayload = 400
+			natsSmallPayload = true
+		}
 		b.OnPublish = func(c *BrokerConn, subject, reply string, hdr, data []byte) bool {
 			if subject == "svc" {
 				m.onRequest(data)
@@ -226,7 +234,11 @@ func muxHarness(rc *RunCtx) {
 		c.opid, _ = ctx.RequestHeader("_opid")
 		h := ctx.RequestHeaders()
 		h["tag"] = c.tag
-		payload := EncodeFrame(h, []byte("req:"+c.tag))
+		body := "req:" + c.tag
+		if c.sendFault == "nats-max-payload" {
+			body += strings.Repeat("p", 600)
+		}
+		payload := EncodeFrame(h, []byte(body))
 		c.invokeAt, c.invokeStep = s.Now(), s.Step
 		if c.oneway {
 			c.err = tr.Oneway(ctx, payload)
@@ -273,6 +285,10 @@ func muxHarness(rc *RunCtx) {
 					if nCallers > 1 && (c.sendFault == "flush-err" || c.sendFault == "flush-block") {
 						c.sendFault = "write" + c.sendFault[5:]
 					}
+				}
+				if natsSmallPayload && tp.Intn("cfg", 3) == 0 {
+					c.sendFault = "nats-max-payload"
+					rc.Fault("nats-publish-refused-max-payload")
 				}
 				m.calls = append(m.calls, c)
 				m.byTag[c.tag] = c
@@ -526,6 +542,9 @@ func (m *muxState) check(tr frugal.FTransport, canary *muxCall, finished bool, b
 			for _, d := range c.deliveries503 {
 				if d.deliveredAt >= 0 && d.deliveredAt < c.invokeAt+c.timeout {
 					inTime = true
+					if c.plan == "503" && !stalled {
+						rc.Violate("C01", "status-503-not-routed-to-its-request", m.kind, fmt.Sprintf("call %d (op id %s): a 503 on its reply subject was delivered before its deadline, yet it timed out instead of failing with SERVICE_NOT_AVAILABLE", c.id, c.opid))
+					}
 				}
 			}
 			if el < c.timeout {
